@@ -176,6 +176,20 @@ class RZILTransformer(Transformer):
         return res
 
     def emit_final_seq_return(self, items, res):
+        # Statements of the body in source order. An expression statement which only consists
+        # of a hybrid (i++; or a call whose value is unused) is represented by the
+        # hybrid's temporary. Its effect belongs at the position of the statement.
+        statements = list()
+        for op in flatten_list(items):
+            if isinstance(op, Effect):
+                statements.append(op)
+            elif (
+                isinstance(op, Pure)
+                and op.get_name() in self.il_ops_holder.hybrid_effect_dict
+            ):
+                statements.append(
+                    self.il_ops_holder.hybrid_effect_dict.pop(op.get_name())
+                )
         # Hybrids which have no parent in the AST
         left_hybrids = [
             self.il_ops_holder.hybrid_effect_dict.pop(hid)
@@ -186,7 +200,7 @@ class RZILTransformer(Transformer):
             f"instruction_sequence",
             [
                 op
-                for op in self.imm_set_effect_list + left_hybrids + flatten_list(items)
+                for op in self.imm_set_effect_list + left_hybrids + statements
                 if isinstance(op, Effect)
             ],
         )
